@@ -212,6 +212,7 @@ def convert_sn(desc, seed, cost=None, full_cost=False):
     sn = SuperNet(model, cost=cost if cost is not None else params,
                   input_example=sn_input(desc, seed, neutral.example_batch(seed)),
                   full_cost=full_cost)
+    sn = neutral.maybe_clone(sn, seed)
     neutral.maybe_warm(sn, [x], seed)
     return model, sn
 
